@@ -490,7 +490,7 @@ impl Suite for CapConc {
         for tid in 0..n_threads {
             let base = sites.len();
             sites.extend(thread_sites(rng, tid));
-            let gcfg = GenCfg { max_ops: if forced { 8 } else if tier == Tier::Quick { 30 } else { 120 }, max_fields: 3, roots: true, clones: true, rich_values: false };
+            let gcfg = GenCfg { max_ops: if forced { 8 } else if tier == Tier::Quick { 30 } else { 120 }, max_fields: 3, roots: true, clones: true, rich_values: false, leak_enters: false };
             let mut ops = program::gen_thread_program(rng, &gcfg, &sites, base, n_shared);
             let hs = shared_handles(&ops, n_shared);
             for op in &mut ops {
